@@ -155,7 +155,7 @@ def run_case(case, res):
     # (vi) exactness on the space
     vol = float(np.prod(width))
     wsum = np.array([1.0] * len(hats) + [max(1.0, sum(abs(x) for x in w)) for w in combos])
-    res.close("hat_integral_exact", np.asarray(result)[1:], np.array(exact_int[1:]), 1e-12 * nsch * vol * wsum,
+    res.close("hat_integral_exact", np.asarray(result)[1:], np.array(exact_int[1:]), itol * nsch * vol * wsum,
               "standard_hat_integral", "combined integral of functions of the sparse grid space is not exact",
               {"cfg": cfg, "n_hats": len(hats)})
     R = [tuple(float(a[k] + rng.random() * width[k]) for k in range(d)) for _ in range(64)]
